@@ -436,21 +436,100 @@ def gen_sfi(rng):
     return rng.choice(list(range(13)) + [15, 15, 15])
 
 
-def gen_asc(rng):
-    r = {}
-    hier = rng.choice([0, 0, 1, 2])
-    r[K(2)] = hier
-    r[K(1)] = rng.choice([1, 2, 2, 2, 3, 4]) if hier else rng.choice([1, 2, 2, 2, 3, 4, 32, 33, 34])
-    r[K(3)] = gen_sfi(rng)
-    r[K(4)] = rng.choice([0, 1, 44100, 48000, rng.randrange(2 ** 24), ue_sample(rng, 2 ** 24 - 1)])
-    r[K(5)] = rng.randint(1, 7)
-    r[K(6)] = flag(rng)
-    r[K(7)] = gen_sfi(rng)
-    r[K(8)] = rng.choice([1, 44100, 48000, 96000, rng.randrange(1, 2 ** 24), ue_sample(rng, 2 ** 24 - 2) + 1])
-    r[K(9)] = flag(rng, 0.6)
-    r[K(10)] = flag(rng, 0.7)
-    r[K(11)] = flag(rng)
-    r[K(12)] = flag(rng)
+SYNCB = [0, 1, 0, 1, 0, 1, 1, 0, 1, 1, 1]
+
+
+def bits_of(v, n):
+    return [(v >> (n - 1 - i)) & 1 for i in range(n)]
+
+
+def payload_clean(rest, sync, total_before_rest):
+    """mirror of payload_ok (the Gallina asc_wf stays the judge): no accidental 0x2b7 in the unread bits"""
+    if sync:
+        s = rest + SYNCB
+        return all(s[k:k + 11] != SYNCB for k in range(len(rest)))
+    pad = (-(total_before_rest + len(rest))) % 8
+    bs = rest + [0] * pad
+    return not any(bs[k:k + 11] == SYNCB for k in range(len(bs)) if len(bs) - k > 15)
+
+
+def als_rest(rng):
+    """ALSSpecificConfig after `channels`: file_type .. aux_data_enabled (64 bits), header_size, trailer_size,
+    orig_header[], orig_trailer[], optional crc"""
+    crc = flag(rng, 0.3)
+    b = bits_of(rng.randrange(8), 3) + bits_of(rng.randrange(8), 3) + [flag(rng), flag(rng)]
+    b += bits_of(rng.choice([2047, 4095, rng.randrange(65536)]), 16) + bits_of(rng.randrange(256), 8)
+    b += bits_of(rng.randrange(3), 2) + [flag(rng)] + bits_of(rng.randrange(4), 2) + [flag(rng)]
+    b += bits_of(rng.randrange(1024), 10) + bits_of(rng.randrange(4), 2)
+    b += [flag(rng), flag(rng), flag(rng), flag(rng), 0, 0, crc, flag(rng)] + [0] * 5 + [0]
+    nh, nt = rng.choice([0, 0, 1, 4]), rng.choice([0, 0, 2])
+    b += bits_of(nh, 32) + bits_of(nt, 32)
+    for _ in range(nh + nt):
+        b += bits_of(rng.randrange(256), 8)
+    if crc:
+        b += bits_of(rng.randrange(2 ** 32), 32)
+    return b
+
+
+GA_AOTS = [1, 2, 2, 2, 3, 4]
+OTHER_AOTS = [6, 7, 8, 9, 12, 13, 14, 15, 16, 17, 19, 20, 21, 22, 23, 24, 25, 26, 27, 28, 30, 35, 37, 38, 39, 40,
+              41, 42, 43, 44, 45, 63, 95]
+
+
+def gen_asc(rng, wide=False):
+    for _ in range(50):
+        r = {}
+        cls = "als" if wide else rng.choice(["plain", "plain", "plain", "als", "als", "other", "other", "pce"])
+        hier = rng.choice([0, 0, 1, 2]) if cls in ("plain", "pce") else 0
+        r[K(2)] = hier
+        if cls == "plain":
+            aot = rng.choice(GA_AOTS) if hier else rng.choice(GA_AOTS + [32, 33, 34])
+        elif cls == "pce":
+            aot = rng.choice(GA_AOTS)
+        elif cls == "als":
+            aot = 36
+        else:
+            aot = rng.choice(OTHER_AOTS)
+        r[K(1)] = aot
+        sfi = gen_sfi(rng)
+        r[K(3)] = sfi
+        r[K(4)] = rng.choice([0, 1, 44100, 48000, rng.randrange(2 ** 24), ue_sample(rng, 2 ** 24 - 1)])
+        chan = 0 if cls == "pce" else (rng.choice([0, 0, 0, 2, rng.randint(0, 7)]) if cls == "als" else
+                                        (rng.randint(1, 7) if cls == "plain" else rng.randint(0, 7)))
+        r[K(5)] = chan
+        flen = flag(rng)
+        r[K(6)] = flen
+        r[K(7)] = gen_sfi(rng)
+        r[K(8)] = rng.choice([1, 44100, 48000, 96000, rng.randrange(1, 2 ** 24), ue_sample(rng, 2 ** 24 - 2) + 1])
+        sync = 0 if cls == "als" else flag(rng, 0.6)
+        r[K(9)] = sync
+        r[K(10)] = flag(rng, 0.7)
+        r[K(11)] = flag(rng)
+        r[K(12)] = flag(rng)
+        head = (5 if aot < 31 else 11) + 4 + (24 if sfi == 15 else 0) + 4
+        opaque = []
+        if cls == "als":
+            r[K(15)] = rng.choice([8000, 44100, 48000, 96000, 192000, rng.randint(1, 2 ** 32 - 1), ue_sample(rng, 2 ** 32 - 2) + 1])
+            r[K(16)] = rng.choice([0, 65536, rng.randrange(2 ** 32)])
+            r[K(17)] = (rng.choice([255, 256, 511, 65535, rng.randint(255, 65535)]) if wide else
+                        rng.choice([0, 0, 1, 1, 5, 7, 254, rng.randint(0, 254)]))
+            opaque = als_rest(rng)
+            head += 5 + 112
+            rest = opaque
+        elif cls == "other":
+            opaque = [flag(rng) for _ in range(rng.choice([0, 1, 3, 8, 17, rng.randint(0, 64)]))]
+            rest = opaque
+        elif cls == "pce":
+            opaque = [flag(rng) for _ in range(rng.randint(10, 90))]
+            rest = [flen, 0, 0] + opaque
+        else:
+            rest = [flen, 0, 0] if aot <= 4 else [0]
+        r[K(13)] = len(opaque)
+        for i, b in enumerate(opaque):
+            if b:
+                r[K(14, i)] = 1
+        if hier or payload_clean(rest, sync, head):
+            return r
     return r
 
 
@@ -593,8 +672,29 @@ def run(ck):
     cfgs = emit_all(ck, "C15_asc_emit", recs)
     cases = [[rec_val(r), b] for r, b in zip(recs, cfgs) if b is not None]
     if len(cases) < n * 0.98:
-        ck.fail("asc_records", "generator", "", note="generated ASC records not well-ranged")
+        bad = [r for r, b in zip(recs, cfgs) if b is None]
+        ck.fail("asc_records", "generator", vlib.vs(rec_val(bad[0])), note="%d of %d generated ASC records not well-ranged" % (len(bad), n))
+    # every class must be present among the well-ranged records (ALS incl. >= 6 channels, other AOTs, AOT >= 32, PCE)
+    def aot_of(c):
+        return dict((k, v) for k, v in c[0]).get(K(1), 0)
+    cls_count = {"als": sum(1 for c in cases if aot_of(c) == 36),
+                 "als6": sum(1 for c in cases if aot_of(c) == 36 and dict(map(tuple, c[0])).get(K(17), 0) >= 5),
+                 "escape": sum(1 for c in cases if aot_of(c) >= 32),
+                 "other": sum(1 for c in cases if aot_of(c) in OTHER_AOTS),
+                 "pce": sum(1 for c in cases if aot_of(c) <= 4 and dict(map(tuple, c[0])).get(K(5), 0) == 0)}
+    ck.extra["asc_classes"] = cls_count
+    for k, v in cls_count.items():
+        if v < 10:
+            ck.fail("asc_records", "generator", "", note="ASC class %s reached only %d times" % (k, v))
     ck.stream("asc_records", cases, "C15_asc_run", "asc", "C15_asc_ok", sig=sig_of("asc-record"))
+    # known finding: ALS with more than 255 channels (the decoder keeps the count in a uint8)
+    wrecs = [gen_asc(rng, wide=True) for _ in range(300 if T else 40)]
+    wcfgs = emit_all(ck, "C15_asc_wide_emit", wrecs)
+    wcases = [[rec_val(r), b] for r, b in zip(wrecs, wcfgs) if b is not None]
+    if len(wcases) < len(wrecs) * 0.9:
+        ck.fail("asc_als_wide", "generator", "", note="wide ALS witnesses not well-ranged")
+    ck.stream("asc_als_wide", wcases, "C15_asc_run", "asc", "C15_asc_wide_ok",
+              sig=lambda c, e, o: "asc-als-wide-channels" if e == o and o.startswith("(1 ") else "asc-als-wide:other")
     valid = [c[1] for c in cases]
     garb = [mutate(rng, rng.choice(valid)) for _ in range(8000 if T else 1200)]
     garb += [bytes(rng.randrange(256) for _ in range(rng.randint(0, 24))) for _ in range(4000 if T else 600)]
@@ -623,8 +723,10 @@ def run(ck):
              "branch: profile class, chroma_format_idc 0..3, separate_colour_plane, scaling lists with negative deltas and early "
              "termination, POC types, field coding, cropping / conformance window, VUI, NAL/VCL and sub-picture HRD, 1..7 "
              "temporal sub-layers with and without ordering info and sub-layer PTL, short-term RPS, long-term pictures, PCM, "
-             "layer sets; ASC rate index 0..12 and the 24-bit escape, AOT escape (Layer 1-3), hierarchical SBR/PS and the "
-             "0x2b7/0x548 sync extensions; ue/se values log-uniform over all code lengths. Each record is encoded by the Gallina "
+             "layer sets; ASC rate index 0..12 and the 24-bit escape, every object type 1..95 (escape-coded >= 32: Layer 1-3, "
+             "ALS with ALSSpecificConfig als_id/samp_freq/samples/channels 1..255 channels, others with opaque specific "
+             "configuration), channelConfiguration 0 with PCE bits, hierarchical SBR/PS and the 0x2b7/0x548 sync extensions "
+             "(each class required >= 10 times per run); ue/se values log-uniform over all code lengths. Each record is encoded by the Gallina "
              "emit of the standard's syntax (run in the driver, the function in the theorems), NAL-wrapped with rbsp trailing "
              "bits and emulation prevention, and decoded by the real decoder; oracle = the proved ok_* (reported values = the "
              "standard's derived-value formulas); non-trivial = record well-ranged (emit succeeded; >98% required). The same "
@@ -639,5 +741,7 @@ def run(ck):
                      "H.265: short-term RPS without inter prediction (D30, known finding, witness replayed every run); VPS hrd with "
                      "cprms_present_flag = 1; the fixed-rate flag of H265RawSPS (a TODO in the source: FrameRate() > 0) is not compared; "
                      "frame rate = time_scale / num_units_in_tick",
-                     "ASC: core AOT 1..4 (GASpecificConfig with dependsOnCoreCoder = 0, channelConfiguration 1..7) or 32..34; "
-                     "channels = Table 1.19 of channelConfiguration (PS up-mix not applied)"])
+                     "ASC: object types 1..95 except 5/29 as core; GASpecificConfig with dependsOnCoreCoder = 0; specific-config bits "
+                     "the parser does not read must not spell the sync word 0x2b7 before the real one (payload_ok; automatic for "
+                     "AAC/Layer configurations); ALS channel count <= 255 (known finding asc-als-wide-channels replayed every run); "
+                     "channels = Table 1.19 of channelConfiguration, 0 reported when it is 0 (PCE not parsed), PS up-mix not applied"])
